@@ -310,7 +310,7 @@ def main(argv=None):
                    "random scalars and sampled generators are independent uniform: modelled as formal symbols", "z3"]
     chk.assumptions = ["lists are sorted by slot index with distinct indices, slot arrays are sized as the Go/C bindings size them (exactly the new free-slot count)"]
     # lower layers whose specifications this check relies on: their obligations are part of this check's claim (framework.Check.include)
-    for dep in ['C06', 'C02', 'C03', 'C04', 'C05', 'C07', 'C01', 'C08', 'C10', 'C19']:
+    for dep in ['C06', 'C02', 'C03', 'C04', 'C05', 'C07', 'C01', 'C08', 'C10', 'C19', 'C20']:
         chk.include(dep)
     chk.run()
     chk.finish()
